@@ -9,4 +9,4 @@ for f in sorted(glob.glob('/verif/replay/%s/*.json'%P)):
     k=(v['instance'], v['key'])
     if k in seen: continue
     seen.add(k)
-    print(v['instance'], v['key'], v['label'], '::', str(v['detail'])[:500], v['cfg'], v['spec'][:700]); print()
+    print(v['instance'], v['key'], v['label'], '::', str(v['detail'])[:500], v.get('cfg'), str(v.get('spec'))[:700]); print()
